@@ -7,5 +7,5 @@ mkdir -p .cache work evidence replays
 (cd lean && lake build)
 REPO=${N2V_REPO:-/repo}
 [ -f harness/Cargo.lock ] || cp $REPO/Cargo.lock harness/Cargo.lock
-(cd harness && cargo build --offline)
+(cd harness && cargo build --offline --target-dir ../.cache/harness-target)
 cargo build --offline --no-default-features --manifest-path $REPO/Cargo.toml --target-dir .cache/n2bin
